@@ -13,7 +13,7 @@ import (
 func init() {
 	register(&Family{
 		Name:  "c05.collide",
-		Props: map[string][2]int{"C05": {48, 2000}, "C04": {16, 500}, "C11": {16, 500}, "C06": {16, 500}},
+		Props: map[string][2]int{"C05": {48, 2000}, "C04": {16, 500}, "C11": {16, 500}, "C06": {16, 500}, "C07": {16, 500}},
 		Run: func(c *Ctx) {
 			r := c.R
 			cfg := randCfg(r, []string{"TimeoutPromises"})
